@@ -17,6 +17,24 @@ from .model import AnalysisError, Repo, Func, Class
 
 sys.setrecursionlimit(max(sys.getrecursionlimit(), 30000))
 
+# development aid (tools/coverage_map.sh): when VERIF_COV names a directory, every repository statement the
+# evaluator executes is recorded as (module, line) so that blind spots of the rule set can be listed.  Off by default.
+import os as _os
+COV_DIR = _os.environ.get("VERIF_COV")
+COV = set() if COV_DIR else None
+_COV_FLUSHED = set()
+
+
+def cov_flush():
+    if COV is None:
+        return
+    new = COV - _COV_FLUSHED
+    if new:
+        with open(_os.path.join(COV_DIR, f"{_os.getpid()}.cov"), "a") as fh:
+            for m, l in new:
+                fh.write(f"{m}\t{l}\n")
+        _COV_FLUSHED.update(new)
+
 
 class Uninterpretable(AnalysisError):
     pass
@@ -82,6 +100,8 @@ class ClassTok:
 class Obj:
     """record for an instance of a repo class (fields are set by a hook or by interpreting __init__)"""
 
+    _it = None  # the evaluator that is running (set on every interpreted call)
+
     def __init__(self, cls_name, **fields):
         self.cls_name = cls_name
         self.fields = dict(fields)
@@ -89,6 +109,35 @@ class Obj:
     def __repr__(self):
         inner = ", ".join(f"{k}={v!r}" for k, v in self.fields.items())
         return f"{self.cls_name}({inner})"
+
+    # Native containers holding records (dict keys, `in`, list.index, dict.fromkeys, tuple comparison ...) must see the
+    # equality the repository class defines, as they would in Python: `==` is the interpreted `__eq__`; the hash is constant
+    # per class when the class defines `__eq__` (correct, if slow), identity otherwise; a class that defines `__eq__`
+    # without `__hash__` is unhashable, as in Python.
+    def __eq__(self, o):
+        if self is o:
+            return True
+        it = Obj._it
+        if it is None:
+            return False
+        m = it.method(self, "__eq__")
+        if m is None:
+            return False
+        return bool(it.call_func(m, [o], {}, self, 1))
+
+    def __ne__(self, o):
+        return not self.__eq__(o)
+
+    def __hash__(self):
+        it = Obj._it
+        if it is None:
+            return id(self) >> 4
+        st = it.hash_status(self.cls_name)
+        if st == "identity":
+            return id(self) >> 4
+        if st == "unhashable":
+            raise TypeError(f"unhashable type: '{self.cls_name}'")
+        return hash(("Obj", st))
 
 
 class SetVal(list):
@@ -240,6 +289,8 @@ class Interp:
         self.overrides: Dict[str, Any] = {"HAS_CGRANGES": False}
         self.trace_calls: List[str] = []
         self._statics: Dict[int, Any] = {}
+        self._hash_status: Dict[str, str] = {}
+        Obj._it = self
 
     # ---- enums --------------------------------------------------------------------
     def enum(self, cls_name) -> Dict[str, EnumVal]:
@@ -312,7 +363,28 @@ class Interp:
         return False
 
     # ---- calling --------------------------------------------------------------------
+    def hash_status(self, cls_name):
+        """'identity' (no repo class in the MRO defines __eq__), 'unhashable' (the class that defines __eq__ does not
+        define __hash__), or the name of the class whose __eq__ applies (constant hash per equality family)"""
+        c = self._hash_status.get(cls_name)
+        if c is not None:
+            return c
+        res = "identity"
+        try:
+            cls = self.repo.cls(cls_name)
+            for k in self.repo.mro(cls):
+                if "__eq__" in k.methods:
+                    res = k.name if "__hash__" in k.methods else "unhashable"
+                    break
+                if "__hash__" in k.methods:
+                    break
+        except Exception:
+            res = "identity"
+        self._hash_status[cls_name] = res
+        return res
+
     def call_func(self, func: Func, args: List[Any], kwargs: Dict[str, Any], self_val=None, depth=0):
+        Obj._it = self
         if depth > self.max_depth:
             raise Uninterpretable(f"call depth exceeded at {func.qual}")
         if func.qual in self.hooks:
@@ -538,6 +610,8 @@ class Interp:
 
     def exec_stmt(self, st, env, func, depth):
         self.steps += 1
+        if COV is not None:
+            COV.add((func.module.name if func is not None and getattr(func, "module", None) is not None else "?", st.lineno))
         if self.steps > self.max_steps:
             raise Uninterpretable("step budget exceeded")
         t = type(st)
